@@ -1,5 +1,5 @@
 """C01 — write-then-read returns the same objects (object level; the file level is added by the file-layer model)."""
-from .. import common, codec, codecrun, coqrun
+from .. import common, codec, codecrun, coqrun, filerun
 
 TRUSTED = [
     'Coq 8.16.1 kernel + vm_compute (no native_compute)',
@@ -59,7 +59,7 @@ def roundtrip_oracle(v, meta, res, pid='C01'):
 
 def run(v, tier, seed, replay=None):
     meta, _ = common.translate()
-    ok, failed, info = coqrun.prove(v, 'C01', ['Inst/Codec.v'])
+    ok, failed, info = coqrun.prove(v, 'C01', ['Inst/Codec.v', 'Inst/StreamRT.v'])
     mexe = common.build_model_driver()
     verd = class_verdicts(mexe)
     name_of = {c['idx']: n for n, c in meta['classes'].items()}
@@ -67,6 +67,35 @@ def run(v, tier, seed, replay=None):
     res = codecrun.run(meta, seed, tier, focus=broken)
     ndis = codecrun.report_disagreements(v, res, 'C01')
     checked, failing = roundtrip_oracle(v, meta, res)
+    # file level: every written file of the file-layer run (levels 0-9 x container sizes 1..0x20000 x restore points, bulk
+    # incompressible payloads, objects spanning containers) read back with the library: the objects delivered are the objects
+    # written, in order, each once, then the end
+    fres = filerun.run(meta, seed, tier)
+    fulls = [r for r in fres['r'] if r['mode'] == 'full' and all(e.startswith('W ok ') for e in r['of']['enc'])]
+    uniq = sorted(set((o.split()[0], e.split(' ')[2]) for r in fulls for o, e in zip(r['of']['objs'], r['of']['enc'])))
+    alone = {}
+    if uniq:
+        ro = codec.run_model(mexe, ['R %s %s' % (idx, hx) for idx, hx in uniq])
+        alone = {k: (r_.split(' |', 1)[1].strip() if ' |' in r_ else None) for k, r_ in zip(uniq, ro)}
+    nfile, fbad = 0, 0
+    for r in fulls:
+        c = r['of']
+        want = [' '.join(('%s | %s' % (o.split()[0], alone[(o.split()[0], e.split(' ')[2])] or '')).split()) for o, e in zip(c['objs'], c['enc'])]
+        i = r['impl']
+        nfile += 1
+        got = [' '.join(x.split()) for x in filerun.canon_fr(i)[5]] if i.startswith('FR ok') else None
+        if got != want or ' eof=1' not in i:
+            fbad += 1
+            k = next((j for j in range(min(len(got or []), len(want))) if got[j] != want[j]), min(len(got or []), len(want)))
+            v.violation('C01:file', 'write-then-read through files: level %d, container size %d, restore points %d: %d objects written, %s read back%s' % (
+                c['level'], c['cs'], c['restore'], len(want), len(got) if got is not None else i[:60],
+                ('; first difference at object %d' % k) if got is not None and len(got) == len(want) else ''),
+                {'write_case': c['line'][:3000], 'file_hex': r['data'].hex()[:6000], 'implementation': i[:600]})
+    ndis_f = sum(1 for r in fulls if not filerun.fr_agree(r['model'], r['impl']))
+    if ndis_f and not fbad:
+        r = next(r for r in fulls if not filerun.fr_agree(r['model'], r['impl']))
+        v.violation('corr:C01:file', 'file-layer model and implementation disagree on reading back %d written file(s): %s | %s' % (ndis_f, r['model'][:150], r['impl'][:150]),
+                    {'file_hex': r['data'].hex()[:6000], 'model': r['model'][:600], 'impl': r['impl'][:600]}, no_input=True)
     # a class that silently left the verified list and for which no failing input was found
     for n in broken:
         if n not in failing:
@@ -83,8 +112,8 @@ def run(v, tier, seed, replay=None):
         'obligations_about_generated_terms': info['obligations_about_generated_terms'],
         'classes_in_theorem': sum(1 for d in verd.values() if d['rt'] and not d['rtx']),
         'classes_excepted': sorted(name_of[c] for c, d in verd.items() if d['rtx']),
-        'roundtrips_checked_on_impl': checked, 'correspondence_disagreements': ndis,
-        'theorems': ['C01_object (all states of %d classes)' % sum(1 for d in verd.values() if d['rt'] and not d['rtx'])],
+        'roundtrips_checked_on_impl': checked, 'correspondence_disagreements': ndis, 'files_written_and_read_back': nfile, 'file_roundtrip_failures': fbad,
+        'theorems': ['C01_object (all states of %d classes)' % sum(1 for d in verd.values() if d['rt'] and not d['rtx']), 'C01_stream (any list of such objects: the parser stage of the file model returns them in order, then the end)'],
     })
     v.coverage.update(cov)
     v.assumptions += ['representability guard as in the property (lengths fit the length member); objects below the 256 MiB allocation cap',
